@@ -10,7 +10,7 @@ ASSUMPTIONS = [
     'after an idle period the loops restart their pass at the first class (the classes behind the last served one were visited, empty, before the loop blocked)',
     'DRR theorems assume packets of at most Lmax bytes and a dict of positive weights; credits and quanta are exact rationals in the theorems, '
     'IEEE doubles compared bit for bit in the replay',
-    'the scheduler processes on the real kernel refine the MultiQueueServer LTS: checked by replay; proved for RR and WRR as processes on the kernel model (Props/C15K, C15KW), not for DRR',
+    'the scheduler processes on the real kernel refine the MultiQueueServer LTS: checked by replay; proved for RR, WRR and DRR as processes on the kernel model (Props/C15K, C15KW, C15KD: one source, identity flow2class)',
     'in 15% of the cases size()/byte_size()/all_flows() of every configured flow are read before the first arrival and between arrivals; those instances are judged by the direct oracles only (a read makes a flow show up in all_flows() before its first packet)',
 ]
 ASSUMPTIONS.append('re-entrant / rewriting next hop and reconfiguration while running (oracle-only family, harness/dynsched.py; RR, WRR, DRR): the next hop re-labels `flow_id` or '
@@ -18,7 +18,7 @@ ASSUMPTIONS.append('re-entrant / rewriting next hop and reconfiguration while ru
                    'place and `rate` is reassigned by another process - the allowance of a WRR visit is read as the weight in force when the visit begins. Judged: cyclic '
                    'declaration order with empty classes skipped (RR, WRR), and that no loop rests while a class is backlogged (all three). Not generated: `weights` re-bound '
                    'to another dict (the pass in progress still iterates the old one: left open), DRR with a re-sizing next hop (finding, see dynsched.EXCLUDED)')
-EXTRA_MODULES = ('OnlVerif.Props.C15K', 'OnlVerif.Props.C15KW')
+EXTRA_MODULES = ('OnlVerif.Props.C15K', 'OnlVerif.Props.C15KW', 'OnlVerif.Props.C15KD')
 TRUSTED_EXTRA = ['the kernel guarantees (G1-G3) that make `tick` admissible only at quiescence are theorems of model K (C01), assumed for the device LTS',
                  'py2lean/elem.py + elements.py (typed AST-subset translator; hand-written per-class field schema of DRR objects; the fragments of '
                  'DRR.__init__ / run / put are located by structural landmarks); the bridge theorem C15.drr_generated_eq_model ties its output to the model']
@@ -437,11 +437,316 @@ def run_wrrk(ctx, res=None):
 # ---- END wrrk leg ----
 
 
+# ---- BEGIN drrk leg: DRR as processes on the kernel MODEL (lean/OnlVerif/Net/DRROnK.lean, driver mode `drrk`) ----
+def run_drrk(ctx, res=None):
+    """Extra leg for Props/C15KD.lean: the K program of the DRR scheduler (put / send_packet / __init__ / run + a source process),
+    run at Float by the compiled driver, against the real DRR with a real source process on the real kernel under env.run()
+    (public API only: a subclass taps put() and send_packet(), a recording `out`, the `get` of the public attribute
+    `packets_available` is wrapped to note the idle periods, the public dicts `deficit` and `head_of_line` are replaced by dicts
+    that note their writes), compared line for line - every put / serve / out / idle / visit / park / done / reset with `now`
+    bits, every value written to `deficit`, the final counters and the key orders of the dicts; plus C15/C12 restated over the
+    implementation's own observations.  Called twice from run(): without `res` it answers whether ctx.replay is a replay of this
+    leg (then only this leg runs); with the result dict of the main leg it appends its coverage / disagreements / failures."""
+    import json, collections
+    from vlib.util import bits, unbits, quiet, run_driver, split_cases
+    from onl.sim import Environment
+    from onl.packet import Packet
+    from onl.scheduler import DRR
+
+    def replay_cases():
+        j = json.load(open(ctx.replay))
+        cs = ([j['case']] if j.get('case') else []) + [d['case'] for d in (j.get('broken_correspondence') or []) if d.get('case')]
+        return [c for c in cs if isinstance(c, dict) and c.get('kind') == 'drrk']
+
+    if res is None:
+        if not (ctx.replay and replay_cases()):
+            return None
+        res = {'coverage': {'evaluations': 0, 'distinct_nontrivial': 0, 'rule': 'replay of a drrk case', 'samples': []},
+               'disagreements': [], 'oracle_failures': []}
+        run_drrk(ctx, res)
+        k = res['coverage']['drr_on_kernel_model']
+        res['coverage'].update(evaluations=k['evaluations'], distinct_nontrivial=k['distinct_nontrivial'], samples=[k['sample']])
+        return res
+
+    def gen(rng, cid):
+        F = rng.randint(1, 5)
+        classes = list(range(F))
+        rng.shuffle(classes)                             # insertion order of the weights dict
+        weights = [[f, rng.choice([1, 1, 2, 2, 3, 4])] for f in classes]
+        rate = rng.choice([4000.0, 4000.0, 8000.0, 1e6, 12345.678, 1e6 / 3])
+        n = rng.randint(0, 14)
+        shape = rng.choice(['burst', 'coincide', 'mixed', 'mixed', 'sparse', 'random', 'refill'])
+        big = rng.random() < 0.5                         # packets larger than the quantum of their class (1500 .. 6000)
+        arr = []
+        for i in range(n):
+            if shape == 'burst':
+                gap = 0.0 if i else rng.choice([0.0, 1.0])
+            elif shape == 'coincide':                    # sizes k*500 at rate 4000: transmissions last k, arrivals on that grid
+                gap = float(rng.choice([0, 0, 1, 1, 2, 3]))
+            elif shape == 'sparse':
+                gap = float(rng.choice([5, 10, 50]))
+            elif shape == 'random':
+                gap = rng.random() * 6
+            elif shape == 'refill':                      # a burst, then single packets while the round is under way
+                gap = 0.0 if i < n // 2 else float(rng.choice([1, 2, 3]))
+            else:
+                gap = rng.choice([0.0, 0.0, 0.5, 1.0, 1.0, 2.0, 3.0, round(rng.random() * 4, 3)])
+            if shape in ('coincide', 'refill'):
+                size = 500 * rng.choice([1, 1, 2, 3, 3, 4, 7] + ([13, 19] if big else []))
+            else:
+                size = rng.choice([1, 100, 500, 1000, 1499, 1500, 1501, 2000, 3000] + ([4500, 6001, 9000, 20000] if big else []))
+            arr.append([gap, i, rng.randrange(F), size])
+        if shape in ('coincide', 'refill'):
+            rate = 4000.0
+        return {'cid': f'd{cid}', 'kind': 'drrk', 'F': F, 'weights': weights, 'rate': rate, 'arrivals': arr}
+
+    def text(c):
+        return ([f"CASE {c['cid']} {bits(c['rate'])} {c['F']}"] + [f'decl {f} {wt}' for f, wt in c['weights']]
+                + [f'arr {bits(g)} {i} {f} {sz}' for g, i, f, sz in c['arrivals']] + ['END'])
+
+    def impl(c):
+        env = Environment()
+        hist = []
+        last_out = [None]
+
+        class TapDRR(DRR):
+            def put(self, packet):
+                hist.append(f'put {packet.packet_id} {bits(env.now)}')
+                return super().put(packet)
+
+            def send_packet(self, packet):
+                hist.append(f'serve {packet.packet_id} {bits(env.now)}')
+                return super().send_packet(packet)
+
+        class Rec:
+            def put(self, packet):
+                last_out[0] = packet.packet_id
+                hist.append(f'out {packet.packet_id} {bits(env.now)}')
+
+        class Credits(dict):
+            """the public dict `deficit`: `d[c] += q` and `d[c] -= size` read the entry and then write it, `d[c] = 0.0` only writes"""
+            read = None
+
+            def __getitem__(self, k):
+                self.read = k
+                return dict.__getitem__(self, k)
+
+            def __setitem__(self, k, v):
+                if self.read == k and k in self:
+                    hist.append(f'visit {k} {bits(env.now)}' if v > dict.__getitem__(self, k) else f'done {last_out[0]} {bits(env.now)}')
+                else:
+                    hist.append(f'reset {k} {bits(env.now)}')
+                hist.append(f'credit {bits(v)}')
+                self.read = None
+                dict.__setitem__(self, k, v)
+
+        class Parked(dict):
+            def __setitem__(self, k, packet):
+                hist.append(f'park {packet.packet_id} {bits(env.now)}')
+                dict.__setitem__(self, k, packet)
+        with quiet():
+            rr = TapDRR(env, c['rate'], dict(map(tuple, c['weights'])))
+        rr.deficit = Credits(rr.deficit)
+        rr.head_of_line = Parked(rr.head_of_line)
+        _get = rr.packets_available.get
+
+        def tapped_get():
+            hist.append(f'idle {bits(env.now)}')
+            return _get()
+        rr.packets_available.get = tapped_get
+        rr.out = Rec()
+
+        def src():
+            for gap, i, f, sz in c['arrivals']:
+                yield env.timeout(gap)
+                rr.put(Packet(env.now, sz, i, src='src', flow_id=f))
+        env.process(src())
+        try:
+            with quiet():
+                env.run()
+            tag = 'RET'
+        except BaseException as x:        # noqa - the property says the run never raises
+            tag = f'RAISED {type(x).__name__}'
+        cur = rr.current_packet
+        lines = [tag] + hist + [f'cells rc={rr.packets_received} cur={"None" if cur is None else cur.packet_id} '
+                                f'tokens={len(rr.packets_available.items)}']
+        for f in range(c['F']):
+            st = rr.stores.get(f)
+            hol = dict.get(rr.head_of_line, f)
+            lines.append(f'class {f} count={rr.queue_count.get(f, 0)} bytes={rr.queue_byte_size.get(f, 0)} ccount={rr.class_count.get(f, 0)} '
+                         f'deficit={bits(dict.get(rr.deficit, f, 0.0))} quantum={bits(rr.quantum.get(f, 0.0))} '
+                         f'hol={"None" if hol is None else hol.packet_id} len={len(st.items) if st else 0}')
+        lines.append(f'keys count={list(rr.queue_count.keys())} bytes={list(rr.queue_byte_size.keys())} stores={list(rr.stores.keys())} '
+                     f'deficit={list(rr.deficit.keys())} ccount={list(rr.class_count.keys())}')
+        return lines + [f'now {bits(env.now)}', 'oracle ok' if tag == 'RET' and not oracle_k(c, lines)[0] else 'oracle -' if tag != 'RET' else 'oracle REJECT']
+
+    def oracle_k(c, lines):
+        """C15/C12 for DRR restated over the implementation's own observations (exact float equalities): the run returns; the
+        oracle keeps its own credit and backlog count (puts minus booked transmissions) per class and the entry of the declaration
+        order being visited; `visit c`: nothing in transmission, c backlogged, the visit in progress over (head parked, credit not
+        positive or class empty), every entry between the one after it (entry 0 after an idle period) and c cyclically empty, credit +=
+        1500*w/min w and the value written to `deficit` is that credit; `serve i`: the class of i is the one being visited, credit
+        positive, i is the parked head of its class if there is one else its oldest waiting packet, size <= credit, at the instant of the
+        last departure or of the arrival of everything waiting; `park i`: the same but size > credit, the visit is over; `out`: exactly
+        serve + 8*size/rate; `done i`: credit -= size and that is the value written; `reset c` exactly when the class has just emptied,
+        the value written is 0.0; `idle` only with nothing in the system; every packet leaves once, per class in arrival order"""
+        if lines[0] != 'RET':
+            return [{'what': f'the run ended with {lines[0]}', 'signature': 'drrk-raised'}], 0
+        ws = [tuple(x) for x in c['weights']]
+        order = [f for f, _ in ws]
+        minw = min(w for _, w in ws)
+        quantum = {f: 1500 * w / minw for f, w in ws}
+        info = {i: (f, sz) for _, i, f, sz in c['arrivals']}
+        waiting = {f: [] for f in order}          # per class: ids handed to put, neither sent nor parked
+        parked = {f: None for f in order}
+        credit = {f: 0.0 for f in order}
+        count = {f: 0 for f in order}
+        tput, busy, lastout, cur, closed, tobook, toreset, expect, outs, multi, parks = {}, None, None, None, False, None, None, None, [], 0, 0
+
+        def fail(what, sig):
+            return [{'what': what, 'signature': sig}], multi
+        for l in lines[1:]:
+            w = l.split()
+            if w[0] not in ('put', 'serve', 'out', 'idle', 'visit', 'credit', 'park', 'done', 'reset'):
+                continue
+            if w[0] == 'credit':
+                if expect is None or unbits(int(w[1])) != expect:
+                    return fail(f'deficit written as {unbits(int(w[1]))!r}, the rule gives {expect!r}', 'drrk-credit-value')
+                expect = None
+                continue
+            if expect is not None:
+                return fail(f'a change of credit without a write of `deficit` before `{l}`', 'drrk-credit-unwritten')
+            if toreset is not None and w[0] != 'reset':
+                return fail(f'class {toreset} has emptied but its credit is not reset before `{l}`', 'drrk-no-reset')
+            t = unbits(int(w[-1]))
+            quiet_ = busy is None and tobook is None
+            if w[0] == 'idle':
+                if not quiet_ or any(waiting.values()) or any(p is not None for p in parked.values()):
+                    return fail('the loop waits for the wake-up token with packets in the system', 'drrk-idle-with-backlog')
+                cur, closed = None, False
+            elif w[0] == 'put':
+                i = int(w[1]); f = info[i][0]
+                waiting[f].append(i); tput[i] = t; count[f] += 1
+            elif w[0] == 'visit':
+                f = int(w[1])
+                if not quiet_:
+                    return fail(f'class {f} is visited during a transmission', 'drrk-visit-busy')
+                if f not in order or count[f] <= 0:
+                    return fail(f'the quantum is added to class {f} which is not backlogged', 'drrk-visit-empty')
+                if cur is not None and not (closed or not credit[order[cur]] > 0 or not count[order[cur]] > 0):
+                    return fail(f'class {f} is visited while the visit of class {order[cur]} (credit {credit[order[cur]]!r}) is not over',
+                                'drrk-visit-cut-short')
+                j, start = order.index(f), (0 if cur is None else cur + 1)
+                skipped = list(range(start, j)) if start <= j else list(range(start, len(ws))) + list(range(j))
+                bad = [order[x] for x in skipped if count[order[x]] > 0]
+                if bad:
+                    return fail(f'class {f} is visited although class {bad[0]}, earlier in the cyclic order, is backlogged', 'drrk-visit-order')
+                if sum(1 for x in order if count[x] > 0) > 1:
+                    multi += 1
+                credit[f] += quantum[f]; expect = credit[f]; cur, closed = j, False
+            elif w[0] in ('serve', 'park'):
+                i = int(w[1]); f, sz = info[i]
+                if not quiet_:
+                    return fail(f'packet {i} taken while {busy} is in transmission', 'drrk-overlap')
+                if cur is None or order[cur] != f or closed or not credit[f] > 0:
+                    return fail(f'packet {i} of class {f} is taken while the visit in progress is that of entry {cur} (closed: {closed})', 'drrk-not-visited')
+                head = parked[f] if parked[f] is not None else (waiting[f][0] if waiting[f] else None)
+                if head != i:
+                    return fail(f'packet {i} is taken but the head of class {f} is {head}', 'drrk-head')
+                held = [x for q in waiting.values() for x in q] + [p for p in parked.values() if p is not None]
+                if not (lastout == t or all(tput[x] == t for x in held)):
+                    return fail(f'packet {i} is taken at {t!r}: neither the last departure ({lastout!r}) nor the arrival instant of what waits', 'drrk-idle')
+                if (sz <= credit[f]) != (w[0] == 'serve'):
+                    return fail(f'packet {i} of {sz} bytes is {"sent" if w[0] == "serve" else "parked"} with credit {credit[f]!r}', 'drrk-affordable')
+                if parked[f] is not None:
+                    parked[f] = None
+                else:
+                    waiting[f].pop(0)
+                if w[0] == 'serve':
+                    busy = (i, t)
+                else:
+                    parked[f] = i; closed = True; parks += 1
+            elif w[0] == 'out':
+                i = int(w[1])
+                if busy is None or busy[0] != i or tobook is not None:
+                    return fail(f'packet {i} leaves but is not the one in transmission', 'drrk-out')
+                if t != busy[1] + info[i][1] * 8.0 / c['rate']:
+                    return fail(f'packet {i}: transmission {busy[1]!r} -> {t!r}, not 8*size/rate', 'drrk-tx-time')
+                outs.append(i); busy = None; lastout = t; tobook = i
+            elif w[0] == 'done':
+                i = int(w[1])
+                if tobook != i:
+                    return fail(f'the transmission of packet {i} is booked but {tobook} has left', 'drrk-book')
+                f, sz = info[i]
+                credit[f] -= sz; expect = credit[f]; count[f] -= 1; tobook = None
+                if count[f] == 0:
+                    toreset = f
+            elif w[0] == 'reset':
+                f = int(w[1])
+                if toreset != f:
+                    return fail(f'the credit of class {f} is reset although the class has not just emptied', 'drrk-reset')
+                credit[f] = 0.0; expect = 0.0; toreset = None
+        if busy is not None or tobook is not None or toreset is not None or expect is not None or any(waiting.values()) \
+                or any(p is not None for p in parked.values()) or sorted(outs) != sorted(info):
+            return fail(f'not every packet left: waiting {waiting}, parked {parked}, in transmission {busy}', 'drrk-drain')
+        for f in order:
+            if [i for i in outs if info[i][0] == f] != [i for _, i, g, _ in c['arrivals'] if g == f]:
+                return fail(f'the packets of class {f} leave out of arrival order', 'drrk-flow-order')
+        return [], (multi, parks)
+
+    rng = random.Random(f'C15-drrk-{ctx.seed}')
+    cases = replay_cases() if ctx.replay else [gen(rng, i) for i in range(300 if ctx.quick else 5000)]
+    txt, got = [], {}
+    for c in cases:
+        got[c['cid']] = impl(c)
+        txt += text(c)
+    model = split_cases(run_driver('drrk', '\n'.join(txt) + '\n')) if cases else {}
+    hist, nontriv = collections.Counter(), 0
+    dis, orc = res['disagreements'], res['oracle_failures']
+    for c in cases:
+        a, b = got[c['cid']], model.get(c['cid'])
+        if a != b:
+            i = next((i for i in range(max(len(a), len(b or []))) if i >= len(a) or not b or i >= len(b) or a[i] != b[i]), 0)
+            dis.append({'case': c, 'detail': f'drrk line {i}: impl `{a[i] if i < len(a) else None}` model `{b[i] if b and i < len(b) else None}`',
+                        'impl': a[:400], 'model': (b or [])[:400]})
+        fails, stats = oracle_k(c, a)
+        for f in fails:
+            f['case'] = c; f['trace'] = a[:400]
+            orc.append(f)
+        multi, parks = stats if isinstance(stats, tuple) else (0, 0)
+        ev = [l.split() for l in a if l.split()[0] in ('put', 'serve', 'out')]
+        out_t = {w[2] for w in ev if w[0] == 'out'}
+        coinc = sum(1 for w in ev if w[0] == 'put' and w[2] in out_t)
+        sizes = {i: sz for _, i, _, sz in c['arrivals']}
+        minw = min([w for _, w in c['weights']] or [1])
+        qof = {f: 1500 * w / minw for f, w in c['weights']}
+        hist['packets'] += len(c['arrivals']); hist['visits with several classes backlogged'] += multi
+        hist['heads parked'] += parks
+        hist['packets larger than the quantum of their class'] += sum(1 for _, i, f, sz in c['arrivals'] if sz > qof[f])
+        hist['arrivals at a transmission end'] += coinc
+        hist['credit resets (class emptied)'] += sum(1 for l in a if l.startswith('reset '))
+        hist[f"classes:{c['F']}"] += 1
+        if multi or coinc or parks:
+            nontriv += 1
+    res['coverage']['drr_on_kernel_model'] = {
+        'evaluations': len(cases), 'distinct_nontrivial': nontriv, 'lines_compared': sum(len(v) for v in got.values()),
+        'rule': 'random weight tables (weights 1-4, random dict order) over 1-5 classes x one source (bursts, arrivals on the grid of the transmission '
+                'ends, bursts refilled while the round is under way, sparse, random gaps; sizes on both sides of the quantum, up to several quanta) run by '
+                'the K program at Float (driver mode drrk) and by the real DRR with a real source process under env.run(); non-trivial = a visit '
+                'with two or more classes backlogged, a parked head, or an arrival at a transmission end',
+        'histogram': dict(sorted(hist.items())), 'sample': cases[0] if cases else None}
+    return None
+# ---- END drrk leg ----
+
+
 def run(ctx):
     rk = run_rrk(ctx)                        # rrk leg: a replay of one of its cases runs only that leg
     if rk is not None:
         return rk
     rk = run_wrrk(ctx)                       # wrrk leg: likewise
+    if rk is not None:
+        return rk
+    rk = run_drrk(ctx)                       # drrk leg: likewise
     if rk is not None:
         return rk
     rng = random.Random(f'C15-{ctx.seed}')
@@ -458,6 +763,7 @@ def run(ctx):
                             'hand_modelled': HAND_MODELLED})
     run_rrk(ctx, res)                        # rrk leg: appends its coverage, disagreements and oracle failures in place
     run_wrrk(ctx, res)                       # wrrk leg: likewise
+    run_drrk(ctx, res)                       # drrk leg: likewise
     # oracle-only: next hops that re-label / re-size the packet or call back into put(), WRR weights edited in place, the rate reassigned
     d = dynsched.run_family(ctx, 'C15', ['rr', 'wrr', 'drr'], ['relabel', 'relabel', 'relabel', 'reflect', 'resize', 'weights', 'rate'], ['roundrobin', 'service'], 200, 4000)
     res['coverage']['reconfigured_and_reentrant_family_oracle_only'] = d['coverage']
